@@ -12,27 +12,9 @@ PROPS = {}
 
 ALL_IDS = ["C%02d" % i for i in range(1, 21)]
 
-PROPS["C10"] = dict(
-    props_file="Properties/C10.v",
-    harnesses=[dict(cmd="refcache", mod="root", model="Model.Refcache", quick=800, thorough=40000, shard=800,
-                    require=["kind.lru", "kind.ttl", "op.add", "op.get", "op.rel", "op.rel.evict", "op.remove", "op.expire",
-                             "result.add.existing", "result.get.miss", "result.callback.add", "result.callback.rel",
-                             "result.callback.remove", "result.callback.expire"])],
-    rule="random histories of Add/Get/Remove/Expire/Release(evict?) over 4 keys on LRUCache (cap 0..4) and TTLCache; "
-         "non-trivial = at least one OnEvicted callback and >= 3 distinct op kinds; distinct = distinct (cap, ops, outputs)",
-    assumptions=[
-        "sync.Mutex / sync.Once behave as documented; every cache method is atomic under the cache mutex (so a schedule is an op list)",
-        "groupcache/lru is modelled (PushFront/MoveToFront/RemoveOldest); its code is exercised by the correspondence check only",
-        "time.AfterFunc timers: the timer body is the Expire op, fired at arbitrary points of the history by the harness hook VerifExpire",
-    ],
-    level_text="Coq theorems over every history of Add/Get/Remove/Expire/Release on the refcounted-cache model (invariant by induction over "
-               "fold_left step): callback count per value <= 1 and = 1 iff the value left the cache and no holder remains; never while held; double release; "
-               "add-existing; re-add while old value held. The model is run against util/cacheutil on random histories every run.",
-    level_note="Model (coq/Model/Refcache.v) is hand-written; cache methods are atomic under the cache mutex so interleavings are op lists; "
-               "groupcache/lru, sync.Once, time.AfterFunc are modelled by contract; Go-level data races are outside the model.",
-    technique="Coq proof: invariant preserved by every op, lifted to all reachable states; correspondence by vm_compute on observed histories",
-    trusted=["util/cacheutil is modelled by hand in coq/Model/Refcache.v; tie = per-op outputs (returned value identity, added/ok, OnEvicted calls)"],
-)
+import glob as _glob, os as _os
+for _f in sorted(_glob.glob(_os.path.join(_os.path.dirname(_os.path.abspath(__file__)), "props.d", "C*.py"))):
+    exec(compile(open(_f).read(), _f, "exec"))
 
 # properties not (yet) claimed: filled in at the bottom so that MANIFEST.json is always valid
 NOT_APPLICABLE = [dict(property_id=i, reason="not yet covered by a check in this revision of /verif (work in progress; see DESIGN.md)")
